@@ -261,9 +261,12 @@ outer:
 		}
 
 		// Move backtrace from body to header.
+		s.Lock()
+		ttl := s.ttl
+		s.Unlock()
 		hops := 0
 		for {
-			if hops >= s.ttl {
+			if hops >= ttl {
 				m.Free() // ErrTooManyHops
 				continue outer
 			}
